@@ -293,6 +293,48 @@ func rulePredLocal(p *Prog, r *Report) {
 	} else {
 		r.Bad(rule, n, "conditions judged independently", carried, "a value carried over from the previously visited condition is read while the current one is judged (at "+carried+"): the outcome depends on the order in which the conditions are visited, which is random for a map")
 	}
+	// without conditions everything qualifies, whatever the node is: no `return false` is reachable while len(conditions) == 0
+	{
+		lenSub := "len(" + p.canonFor(fn).of(subP) + ")"
+		badEmpty := ""
+		eachInstr(fn, func(b *ssa.BasicBlock, in ssa.Instruction) {
+			ret, ok := in.(*ssa.Return)
+			if !ok || len(ret.Results) != 1 {
+				return
+			}
+			bv, isC := constBool(ret.Results[0])
+			if !isC || bv {
+				return
+			}
+			if inLoop(b) {
+				return // inside the loop over the conditions there is at least one
+			}
+			guarded := false
+			for _, g := range expandAndGuards(dominatingGuards(b)) {
+				ng := normGuard(g)
+				bo, ok := ng.Cond.(*ssa.BinOp)
+				if !ok || p.canonFor(fn).of(bo.X) != lenSub {
+					continue
+				}
+				k, isK := constInt(bo.Y)
+				if !isK {
+					continue
+				}
+				switch {
+				case bo.Op == token.EQL && k == 0 && !ng.Pol, bo.Op == token.NEQ && k == 0 && ng.Pol, bo.Op == token.GTR && k == 0 && ng.Pol, bo.Op == token.GEQ && k == 1 && ng.Pol, bo.Op == token.LSS && k == 1 && !ng.Pol, bo.Op == token.LEQ && k == 0 && !ng.Pol:
+					guarded = true
+				}
+			}
+			if !guarded {
+				badEmpty = p.Pos(ret.Pos())
+			}
+		})
+		if badEmpty == "" {
+			r.OK(rule, n, "no conditions, no rejection", p.Pos(fn.Pos()), "every return of false outside the condition loop is dominated by len(conditions) != 0")
+		} else {
+			r.Bad(rule, n, "no conditions, no rejection", badEmpty, "the predicate can return false although no condition was given (return at "+badEmpty+"): callers that filter unconditionally through it lose every value that is not a map")
+		}
+	}
 	ord := newOrdinals()
 	cnt := 0
 	eachInstr(fn, func(b *ssa.BasicBlock, in ssa.Instruction) {
